@@ -422,7 +422,7 @@ def random_isa(rnd, idx):
 def random_instr_shapes(tier, seed, props):
     rnd = random.Random(900 + seed)
     S = []
-    for i in range(60 if tier == 'quick' else 1500):
+    for i in range(60 if tier == 'quick' else 3000):
         sid, cfg, stmt = random_isa(rnd, f'{seed}.{i}')
         S.append(InstrShape(sid, config=cfg, stmt=stmt, props=list(props), expect=[], width=64))
     return S
